@@ -10,10 +10,14 @@ PID = "C14"
 TRANSLATE = True
 TRANSLATE_ALGO = ["AlgoTraverse", "AlgoTravFront", "AlgoVolume"]     # harness/algo_specs/14_voltrav.py: _get_volume_frustum_cone with its `leave` closure
 DRIVER_FILES = ["SwcVerif/Model/AlgoRunVolume.lean"]
-LEAN_MODS = ["SwcVerif.Props.C14"]
+LEAN_MODS = ["SwcVerif.Props.C14", "SwcVerif.Props.C14Gen"]
 THEOREMS = [
     "C14.tree_volume_eq_sum", "C14.level1_every_tree", "C14.level2_every_tree", "C14.level3_every_tree", "C14.level5_every_tree",
     "C14.node_level1", "C14.node_level2", "C14.node_level3", "C14.node_level5",
+    # the traversal around the per-node arithmetic, generated from _get_volume_frustum_cone on this run (Gen/AlgoVolume.lean) and proved equal to the model
+    "RefineVolume.vol_leave_eq", "RefineVolume.spec_vol_leave", "RefineVolume.getVolume_refines", "RefineVolume.getVolume_level10",
+    "C14.generated_volume_eq_model", "C14.generated_level1_every_tree", "C14.generated_level2_every_tree", "C14.generated_level3_every_tree",
+    "C14.generated_volume_every_tree",
     "C14.chain_union", "C14.chain_hyps_of_pairwise", "C14.sum_chainRose", "C14.chain_volume_is_union", "C14.two_arm_volume_is_union", "C14.lens_inside_frustum",
 ]
 TRUSTED = ["translator (Gen/VolumeTerms.lean: the per-node inclusion–exclusion terms and their accuracy levels, regenerated from analysis/volume.py)",
